@@ -1,17 +1,45 @@
 (* C15 — all return and file modes deliver the same model.
    Only statements here; model and proofs live in theories/FileModes.v.
    `ListOps`: bytes = list N.  `RleOps`: the run-length byte strings the harness evaluates.
-   v : variant = ASSUMED writer behaviour (append/truncate, CWD-relative existence check) + whether the code
-   removes an old sidecar before writing (`v_remove_before`, true since /repo 1d7bd45; the harness ties the
-   current code to `repaired`).  thr = spill threshold; h = history of exports to p; `save` returns
-   (directory afterwards, returned-without-raising). *)
+   v : variant = ASSUMED writer behaviour (append/truncate, CWD-relative existence check reached or not) + whether
+   the code removes an old sidecar before writing.  Named variants: `unrepaired` (before /repo 1d7bd45),
+   `repaired` (1d7bd45: removal first, writer's CWD check still reached), `current` (since e203da0: removal first,
+   CWD check never reached).  The harness ties the code of /repo to a variant on every run and obliges it to be
+   `current`-like (v_remove_before = true, v_cwd_check = false).  thr = spill threshold; h = history of exports to
+   p; `save` returns (directory afterwards, returned-without-raising).  The mode of a step is the NORMALISED
+   export mode: that every accepted spelling of export_mode / return_mode reaches the save logic normalised is a
+   harness tie (AST) and is exercised on the real code for every spelling. *)
 From Coq Require Import NArith String List.
 From J2O Require Import FileModes.
 Import ListNotations.
 Open Scope N_scope.
 
-(* ---------------- load after save *)
-(* repaired code, full strength: for EVERY history (any mix of modes, sizes, CWDs, raising exports, any prior
+(* ---------------- headline, current code *)
+(* full strength, unconditional: after ANY history of exports to one path (any mix of modes, sizes, CWDs, any
+   prior directory) the file loads to the model of the LAST export, every initializer byte-identical *)
+Theorem C15_load_after_save_current :
+  forall (thr : N) (p : string) (f0 : fs ListOps) (h : list (step ListOps)) (s : step ListOps),
+    load ListOps (st_fs ListOps (run ListOps current thr p (init ListOps f0) (h ++ [s]))) p
+    = Some (st_model ListOps s).
+Proof. exact load_after_save_current. Qed.
+Print Assumptions C15_load_after_save_current.
+
+Theorem C15_current_never_raises :
+  forall (thr : N) (f : fs ListOps) (p : string) (s : step ListOps), snd (save ListOps current thr f p s) = true.
+Proof. exact current_never_raises. Qed.
+Print Assumptions C15_current_never_raises.
+
+Theorem C15_sidecar_exact_current :
+  forall (thr : N) (p : string) (f : fs ListOps) (s : step ListOps),
+    snd (save ListOps current thr f p s) = true ->
+    sidecar_size ListOps (fst (save ListOps current thr f p s)) p
+    = expected_sidecar ListOps (st_mode ListOps s) thr (st_model ListOps s).
+Proof. exact sidecar_exact_current. Qed.
+Print Assumptions C15_sidecar_exact_current.
+(* history independence of the current code: C15_history_independent below (needs only v_remove_before = true) *)
+
+(* ---------------- load after save, all variants *)
+(* code with the removal (1d7bd45 and later), writer's CWD check possibly still reached: for EVERY history (any mix of modes, sizes, CWDs, raising exports, any prior
    directory) whose last step is web or not issued from an unrelated directory containing a file named like
    the sidecar, the file loads to the model of the last step, every initializer byte-identical *)
 Theorem C15_load_after_save :
@@ -22,7 +50,7 @@ Theorem C15_load_after_save :
 Proof. exact load_after_save_repaired. Qed.
 Print Assumptions C15_load_after_save.
 
-(* the remaining hypothesis is needed: the unconditional statement is still false of the repaired code *)
+(* for the 1d7bd45 code (`repaired`) that hypothesis is needed: the unconditional statement is false of it *)
 Theorem C15_load_after_save_refuted :
   ~ (forall (thr : N) (p : string) (f0 : fs ListOps) (h : list (step ListOps)) (s : step ListOps),
        load ListOps (st_fs ListOps (run ListOps repaired thr p (init ListOps f0) (h ++ [s]))) p
@@ -62,7 +90,7 @@ Theorem C15_load_after_save_no_cwd_check :
 Proof. exact load_after_save_no_cwd_check. Qed.
 Print Assumptions C15_load_after_save_no_cwd_check.
 
-(* "a raising export leaves the directory as it was" — FALSE of the repaired code (the removal precedes the
+(* "a raising export leaves the directory as it was" — FALSE of the 1d7bd45 code (the removal precedes the
    writer's refusal: the previous export loses its sidecar), true for code without the removal, for which the
    file then always loads to the last export that returned *)
 Theorem C15_raise_atomic_refuted :
@@ -100,7 +128,7 @@ Proof. exact web_self_contained. Qed.
 Print Assumptions C15_web_self_contained.
 
 (* ---------------- stale sidecar *)
-(* repaired code: HISTORY INDEPENDENCE.  Whether an export returns, and the main file and sidecar it leaves
+(* code with the removal, hence the current code: HISTORY INDEPENDENCE.  Whether an export returns, and the main file and sidecar it leaves
    (presence and contents), are those of the same export into an EMPTY directory: no byte of an earlier export
    survives, nothing stale can be referenced *)
 Theorem C15_history_independent :
@@ -138,7 +166,7 @@ Theorem C15_append_keeps_old_bytes :
 Proof. exact append_keeps_old_bytes. Qed.
 Print Assumptions C15_append_keeps_old_bytes.
 
-(* the sidecar is exactly as large as what a fresh export writes: now a theorem of the repaired code ... *)
+(* the sidecar is exactly as large as what a fresh export writes: a theorem of the 1d7bd45 code as well ... *)
 Theorem C15_sidecar_exact :
   forall (thr : N) (p : string) (f : fs ListOps) (s : step ListOps),
     snd (save ListOps repaired thr f p s) = true ->
@@ -147,7 +175,7 @@ Theorem C15_sidecar_exact :
 Proof. exact sidecar_exact_repaired. Qed.
 Print Assumptions C15_sidecar_exact.
 
-(* ... false before the repair (append writer) ... *)
+(* ... false before 1d7bd45 (append writer) ... *)
 Theorem C15_sidecar_exact_refuted_unrepaired :
   ~ (forall (thr : N) (p : string) (f : fs ListOps) (s : step ListOps),
        snd (save ListOps unrepaired thr f p s) = true ->
